@@ -1,4 +1,5 @@
 """C14 — stopped() / running() tell the truth without anyone awaiting the actor."""
+import re
 import core, nfa, graph
 from mir import Body, sinks
 from props.c15 import roots
@@ -80,6 +81,11 @@ def run_cfg(ctx, fx):
     from props.c03 import run_loops
     run_loops(ctx, fx, "R14.3", {"L6"})
     check_announcers(ctx, fx, "R14.5")
+    # R14.6 (shared with C08) the registry's dependents act on the truthful answer: a terminated entry is replaced by the
+    # instance spawned on demand (what is inserted is the address of the loop that was spawned, unconditionally), lookups hand
+    # out running instances only, already_running reports the entry's running()
+    from props import c08 as _c08
+    _c08.shared_subset(ctx, fx, fx.cfg, "R14.6", r"^(from_registry_and_spawn@%s:(inserted-is-spawned|reuse-only-if-running|order)|try_from_registry@%s|already_running@%s|register@%s)$" % ((re.escape(fx.cfg),) * 4), 4)
 
 
 def check_announcers(ctx, fx, RULE="R14.5"):
